@@ -105,7 +105,8 @@ pub fn drive(n_prefixes: usize, level: usize, out: &str) -> ! {
     let mut log = Log { f, n: 0 };
     let mut rng = StdRng::seed_from_u64(seed());
     let alnum: Vec<char> = "abcdefghijklmnopqrstuvwxyz0123456789".chars().collect();
-    let mut prefixes: Vec<String> = vec!["cosmwasm".into(), "a".into(), "osmo".into(), "osmosis".into(), "j1n".into()];
+    // (a `1` inside or at the end of a prefix is legal: only the LAST `1` of an address is the separator)
+    let mut prefixes: Vec<String> = vec!["cosmwasm".into(), "a".into(), "osmo".into(), "osmosis".into(), "j1n".into(), "osmo1".into(), "x1".into(), "1".into()];
     for _ in 0..n_prefixes {
         let l = rng.gen_range(1..=10);
         let p: String = (0..l).map(|i| if i == 0 { alnum[rng.gen_range(0..26)] } else { alnum[rng.gen_range(0..36)] }).collect();
@@ -120,7 +121,7 @@ pub fn drive(n_prefixes: usize, level: usize, out: &str) -> ! {
             let other = Codec::new(other_kind, ps);
             // names
             let mut made = vec![];
-            for nm in names.iter().take(if level > 1 || pi < 5 { names.len() } else { 3 }) {
+            for nm in names.iter().take(if level > 1 || pi < 8 { names.len() } else { 3 }) {
                 if let Some(a) = log.make(&c, kind, p, nm) {
                     made.push(a);
                 }
